@@ -112,6 +112,7 @@ class ValueGen:
     def __init__(self, rng: hlib.Rng, res: hlib.Result):
         self.rng = rng
         self.res = res
+        self.force_depth = 0        # > 0: every L-capable dynamic leaf gets a nested list value of this depth
         self.todo: set = set()      # (item class name, alternative type name) not yet used
         self.covered: set = set()
 
@@ -166,6 +167,12 @@ class ValueGen:
             return V.Array(ANYVALUE, elems)
         raise KeyError(tname)
 
+    def nested_array(self, depth: int):
+        """an L value of the given nesting depth: L[ U1, A, L[ … ] ]"""
+        if depth <= 1:
+            return V.Array(ANYVALUE, [V.U2(self.rng.range(0, 65535)), V.String("a")])
+        return V.Array(ANYVALUE, [V.U1(self.rng.range(0, 255)), V.String("n%d" % depth), self.nested_array(depth - 1)])
+
     def plain(self, tname: str, count: int):
         """a plain Python value the named type supports, within the count limit"""
         r = self.rng
@@ -201,6 +208,8 @@ class ValueGen:
         count = cls.__count__
         open_alts = [t for t in alts if (cls.__name__, t) in self.todo]
         tname = self.rng.choice(open_alts) if open_alts else self.rng.choice(alts)
+        if mode == "typed" and dynamic and self.force_depth and "Array" in alts:
+            return self.nested_array(self.force_depth)
         if mode == "typed" and dynamic:
             self.todo.discard((cls.__name__, tname))
             self.covered.add((cls.__name__, tname))
@@ -283,6 +292,49 @@ def pairing_problems(rows: dict):
             if r["reply"] or r["reply_required"]:
                 out.append(((s, f), "a secondary (even) function declares a reply"))
     return out
+
+
+class Phase:
+    """Safety net around one part of the oracle: an exception that escapes from the LIBRARY is a finding (recorded with the part, the
+    library frame and the message), never a crash of the check.  Errors of the harness' own machinery (driver, facts, workers:
+    RuntimeError raised by the harness itself) still propagate."""
+
+    def __init__(self, res, name):
+        self.res, self.name = res, name
+
+    def __enter__(self):
+        return self
+
+    def __exit__(self, et, ev, tb):
+        if et is None or not issubclass(et, Exception):
+            return False
+        import traceback  # noqa: PLC0415
+        frames = traceback.extract_tb(tb)
+        lib = [f for f in frames if os.sep + "secsgem" + os.sep in f.filename]
+        if not lib:
+            return False                                  # not from the library: a broken harness must stay visible as such
+        last_h = [f for f in frames if os.sep + "secsgem" + os.sep not in f.filename][-1]
+        self.res.violate("c03-library-raises", f"{self.name}: a library call made by the oracle raised {et.__name__}",
+                         {"part": self.name, "harness_line": f"{os.path.basename(last_h.filename)}:{last_h.lineno} {last_h.line}",
+                          "library_frame": f"{os.path.relpath(lib[-1].filename, hlib.REPO)}:{lib[-1].lineno} in {lib[-1].name}"},
+                         "no exception", f"{et.__name__}: {str(ev)[:300]}")
+        return True
+
+
+def safe_lookup(cont, s, f):
+    """`cont.function(s, f)`, an exception returned as a value"""
+    try:
+        return cont.function(s, f)
+    except Exception as exc:  # noqa: BLE001
+        return exc
+
+
+def show_found(x):
+    if x is None:
+        return "None"
+    if isinstance(x, BaseException):
+        return f"{type(x).__name__}: {str(x)[:80]}".replace("\n", " ")
+    return getattr(x, "__name__", repr(x))
 
 
 class RobustDriver(hlib.Driver):
@@ -458,437 +510,496 @@ def main():
     classes = list(secs_streams_functions)
 
     # ------------------------------------------------------------ T-tie: Gen.Catalogue vs the live classes
-    flag_attrs = ["_to_host", "_to_equipment", "_has_reply", "_is_reply_required", "_is_multi_block"]
-    live_rows = {}
-    for cls in classes:
-        key = (cls._stream, cls._function)
-        live_rows[key] = {"cls": cls.__name__, "flags": [getattr(cls, x) for x in flag_attrs], "data_format": cls._data_format}
-        res.count(("tie", key), nontrivial=False)
-        g = gen_rows.get(key)
-        if g is None or g["cls"] != cls.__name__ or g["flags"] != live_rows[key]["flags"] or g["data_format"] != cls._data_format:
-            res.disagree("Gen.Catalogue.py row vs live class attributes", {"key": key}, g, live_rows[key])
-        # the public attributes the property names
-        inst_ok = (cls.stream == cls._stream and cls.function == cls._function)
-        if not inst_ok:
-            res.violate("c03-attributes", "class properties stream/function differ from _stream/_function", {"cls": cls.__name__})
-    if len(gen_rows) != len(classes) or set(gen_rows) != set(live_rows):
-        res.disagree("Gen.Catalogue.py key set vs secs_streams_functions", None, sorted(gen_rows), sorted(live_rows))
+    with Phase(res, "T-tie: Gen.Catalogue vs the live classes"):
+        flag_attrs = ["_to_host", "_to_equipment", "_has_reply", "_is_reply_required", "_is_multi_block"]
+        live_rows = {}
+        for cls in classes:
+            key = (cls._stream, cls._function)
+            live_rows[key] = {"cls": cls.__name__, "flags": [getattr(cls, x) for x in flag_attrs], "data_format": cls._data_format}
+            res.count(("tie", key), nontrivial=False)
+            g = gen_rows.get(key)
+            if g is None or g["cls"] != cls.__name__ or g["flags"] != live_rows[key]["flags"] or g["data_format"] != cls._data_format:
+                res.disagree("Gen.Catalogue.py row vs live class attributes", {"key": key}, g, live_rows[key])
+            # the public attributes the property names
+            inst_ok = (cls.stream == cls._stream and cls.function == cls._function)
+            if not inst_ok:
+                res.violate("c03-attributes", "class properties stream/function differ from _stream/_function", {"cls": cls.__name__})
+        if len(gen_rows) != len(classes) or set(gen_rows) != set(live_rows):
+            res.disagree("Gen.Catalogue.py key set vs secs_streams_functions", None, sorted(gen_rows), sorted(live_rows))
 
     # ------------------------------------------------------------ lookup by numbers only
-    n_lookup = 0
-    lines, cases, answers = [], [], []
-    pairs = [(s, f) for s in range(0, 21) for f in range(0, 256)] + [(rng.range(21, 127), rng.range(0, 255)) for _ in range(300)] + [(127, 255), (64, 0)]
-    for s, f in pairs:
-        n_lookup += 1
-        try:
-            got = sf.function(s, f)
-            ans = "ok " + (got.__name__ if got is not None else "none")
-        except Exception as exc:  # noqa: BLE001
-            got = None
-            ans = "err " + hlib.errkind(exc)
-        want = live_rows.get((s, f))
-        if (want is None) != (got is None) or (want is not None and got.__name__ != want["cls"]):
-            res.violate("c03-lookup", "StreamsFunctions.function(s, f) does not return exactly the catalogued class", {"s": s, "f": f}, want and want["cls"], ans)
-        lines.append(f"cat lookup {s} {f}")
-        cases.append({"s": s, "f": f})
-        answers.append(ans)
-    res.evaluations += n_lookup
-    res.count(("lookup-all",), sample={"op": "lookup", "pairs": n_lookup})
-    res.exhaustive_parts.append(f"StreamsFunctions.function(s, f) for all 0<=s<=20, 0<=f<=255 (+302 others): {n_lookup} lookups")
-    hlib.compare_batch(res, drv, "StreamsFunctions.function vs Model.Catalogue.function over Gen.Catalogue.py", cases, lines, answers)
+    with Phase(res, "lookup by numbers only"):
+        n_lookup = 0
+        lines, cases, answers = [], [], []
+        pairs = [(s, f) for s in range(0, 21) for f in range(0, 256)] + [(rng.range(21, 127), rng.range(0, 255)) for _ in range(300)] + [(127, 255), (64, 0)]
+        for s, f in pairs:
+            n_lookup += 1
+            try:
+                got = sf.function(s, f)
+                ans = "ok " + (got.__name__ if got is not None else "none")
+            except Exception as exc:  # noqa: BLE001
+                got = None
+                ans = "err " + hlib.errkind(exc)
+            want = live_rows.get((s, f))
+            if (want is None) != (got is None) or (want is not None and got.__name__ != want["cls"]):
+                res.violate("c03-lookup", "StreamsFunctions.function(s, f) does not return exactly the catalogued class", {"s": s, "f": f}, want and want["cls"], ans)
+            lines.append(f"cat lookup {s} {f}")
+            cases.append({"s": s, "f": f})
+            answers.append(ans)
+        # "found by its S/F numbers", stated against sources that do not depend on the list being looked up in: every function class
+        # the package exports (secsgem.secs.functions.SecsSxxFyy) and every key of functions.yaml must be found, exactly once, and be
+        # the class that carries these numbers; the list holds no entry twice.
+        from secsgem.secs.functions.base import SecsStreamFunction as _SSF  # noqa: PLC0415
+        exported = sorted((c for n, c in vars(fmod).items() if isinstance(c, type) and issubclass(c, _SSF) and c is not _SSF and n.startswith("SecsS")),
+                          key=lambda c: (c._stream, c._function))
+        import yaml as _yaml  # noqa: PLC0415
+        ykeys = sorted((int(k[1:3]), int(k[4:6])) for k in _yaml.safe_load(open(os.path.join(hlib.REPO, "secsgem", "secs", "functions.yaml"), encoding="utf-8")))
+        for c in exported:
+            res.evaluations += 1
+            got = safe_lookup(sf, c._stream, c._function)
+            if got is not c:
+                res.violate("c03-lookup", f"the exported function class {c.__name__} is not what StreamsFunctions.function({c._stream}, {c._function}) returns",
+                            {"s": c._stream, "f": c._function, "class": c.__name__}, c.__name__, show_found(got))
+        for (s_, f_) in ykeys:
+            res.evaluations += 1
+            got = safe_lookup(sf, s_, f_)
+            if not (isinstance(got, type) and (got._stream, got._function) == (s_, f_)):
+                res.violate("c03-lookup", f"S{s_}F{f_} of functions.yaml is not found by its numbers", {"s": s_, "f": f_}, f"the class of S{s_}F{f_}", show_found(got))
+        seen_entries = {}
+        for c in classes:
+            seen_entries.setdefault((c._stream, c._function), []).append(c.__name__)
+        for k, names_ in sorted(seen_entries.items()):
+            if len(names_) > 1:
+                res.violate("c03-lookup", f"secs_streams_functions holds S{k[0]}F{k[1]} more than once", {"s": k[0], "f": k[1]}, 1, names_)
+        if len(classes) != len(exported) or len(classes) != len(ykeys):
+            res.violate("c03-lookup", "the catalogue list, the exported function classes and functions.yaml differ in size",
+                        {"list": len(classes), "exported_classes": len(exported), "yaml": len(ykeys)})
+        res.exhaustive_parts.append(f"every exported function class ({len(exported)}) and every functions.yaml key ({len(ykeys)}) is found exactly once by its numbers")
+        res.evaluations += n_lookup
+        res.count(("lookup-all",), sample={"op": "lookup", "pairs": n_lookup})
+        res.exhaustive_parts.append(f"StreamsFunctions.function(s, f) for all 0<=s<=20, 0<=f<=255 (+302 others): {n_lookup} lookups")
+        hlib.compare_batch(res, drv, "StreamsFunctions.function vs Model.Catalogue.function over Gen.Catalogue.py", cases, lines, answers)
 
     # ------------------------------------------------------------ values
-    vg = ValueGen(rng, res)
-    usable = []
-    for cls in classes:
-        try:
-            cls()
-            usable.append(cls)
-        except Exception as exc:  # noqa: BLE001
-            res.count(("unusable", cls.__name__), nontrivial=False)
-            res.violate("c03-structure-unusable", "the class cannot be instantiated from its own _data_format",
-                        {"function": cls.__name__, "data_format": cls._data_format}, "an object", f"{type(exc).__name__}: {str(exc)[:200]}")
-    # the flags an *instance* carries (what the protocol layers read when they build the header) are the declared ones
-    inst_attrs = ["to_host", "to_equipment", "has_reply", "is_reply_required", "is_multi_block"]
-    for cls in usable:
-        inst = cls()
-        res.count(("instance-flags", cls.__name__), nontrivial=False)
-        got = [getattr(inst, x, None) for x in inst_attrs]
-        want = [getattr(cls, x) for x in flag_attrs]
-        if got != want or inst.stream != cls._stream or inst.function != cls._function or inst.data_format != cls._data_format:
-            res.violate("c03-instance-flags", "an instance does not carry the flags / numbers its class (and functions.yaml) declares",
-                        {"function": cls.__name__, "attributes": inst_attrs}, want, got)
-    for cls in usable:
-        inst = cls()
-        for leaf in leaves_of(inst.data, []):
-            for t in vg.alternatives(leaf):
-                vg.todo.add((type(leaf).__name__, t))
-    all_pairs = set(vg.todo)
-    system = 1000
-
-    def roundtrip(cls, value, mode: str, sizes_tag):
-        nonlocal system
-        key = (cls._stream, cls._function)
-        case = {"function": cls.__name__, "mode": mode, "value": strip_typed(value)}
-        try:
-            obj = cls(value)
-        except Exception as exc:  # noqa: BLE001
+    with Phase(res, "values"):
+        vg = ValueGen(rng, res)
+        usable = []
+        for cls in classes:
+            try:
+                cls()
+                usable.append(cls)
+            except Exception as exc:  # noqa: BLE001
+                res.count(("unusable", cls.__name__), nontrivial=False)
+                res.violate("c03-structure-unusable", "the class cannot be instantiated from its own _data_format",
+                            {"function": cls.__name__, "data_format": cls._data_format}, "an object", f"{type(exc).__name__}: {str(exc)[:200]}")
+        # the flags an *instance* carries (what the protocol layers read when they build the header) are the declared ones
+        inst_attrs = ["to_host", "to_equipment", "has_reply", "is_reply_required", "is_multi_block"]
+        for cls in usable:
             inst = cls()
-            if mode.startswith("plain") and contains_plain_list_for_array_item(value, inst.data):
-                res.bump("constructor", "plain list for a list-capable dynamic item: " + type(exc).__name__)
-                if sum(1 for v in res.violations if v["class"] == PLAIN_LIST_CLASS) < 3:
-                    res.violate(PLAIN_LIST_CLASS, "a plain Python list given to a dynamic item that also allows L raises " + type(exc).__name__,
-                                case, "the value read back", f"{type(exc).__name__}: {str(exc)[:120]}")
+            res.count(("instance-flags", cls.__name__), nontrivial=False)
+            got = [getattr(inst, x, None) for x in inst_attrs]
+            want = [getattr(cls, x) for x in flag_attrs]
+            if got != want or inst.stream != cls._stream or inst.function != cls._function or inst.data_format != cls._data_format:
+                res.violate("c03-instance-flags", "an instance does not carry the flags / numbers its class (and functions.yaml) declares",
+                            {"function": cls.__name__, "attributes": inst_attrs}, want, got)
+        for cls in usable:
+            inst = cls()
+            for leaf in leaves_of(inst.data, []):
+                for t in vg.alternatives(leaf):
+                    vg.todo.add((type(leaf).__name__, t))
+        all_pairs = set(vg.todo)
+        system = 1000
+
+        def roundtrip(cls, value, mode: str, sizes_tag):
+            nonlocal system
+            if value is MISSING:
                 return
-            res.violate("c03-constructor-rejects", "a structure-conforming value is rejected by the constructor", case, "accepted", f"{type(exc).__name__}: {str(exc)[:160]}")
-            return
-        res.bump("constructor", "ok")
-        # plain values read back unchanged (typed values: their own get())
-        if mode.startswith("plain"):
-            got = obj.get()
-            ref = norm_plain(value, obj.data)
-            if not py_equal(got, ref):
-                if only_rounded_ints(ref, got):
-                    res.bump("plain_readback", "int list stored as float, rounded")
-                    if sum(1 for v in res.violations if v["class"] == PLAIN_ROUND_CLASS) < 3:
-                        res.violate(PLAIN_ROUND_CLASS, "a plain list of integers is stored in a float type that precedes the integer type and read back rounded", case, canon(ref), canon(got))
+            key = (cls._stream, cls._function)
+            case = {"function": cls.__name__, "mode": mode, "value": strip_typed(value)}
+            try:
+                obj = cls(value)
+            except Exception as exc:  # noqa: BLE001
+                inst = cls()
+                if mode.startswith("plain") and contains_plain_list_for_array_item(value, inst.data):
+                    res.bump("constructor", "plain list for a list-capable dynamic item: " + type(exc).__name__)
+                    if sum(1 for v in res.violations if v["class"] == PLAIN_LIST_CLASS) < 3:
+                        res.violate(PLAIN_LIST_CLASS, "a plain Python list given to a dynamic item that also allows L raises " + type(exc).__name__,
+                                    case, "the value read back", f"{type(exc).__name__}: {str(exc)[:120]}")
+                    return
+                res.violate("c03-constructor-rejects", "a structure-conforming value is rejected by the constructor", case, "accepted", f"{type(exc).__name__}: {str(exc)[:160]}")
+                return
+            res.bump("constructor", "ok")
+            # plain values read back unchanged (typed values: their own get())
+            if mode.startswith("plain"):
+                got = obj.get()
+                ref = norm_plain(value, obj.data)
+                if not py_equal(got, ref):
+                    if only_rounded_ints(ref, got):
+                        res.bump("plain_readback", "int list stored as float, rounded")
+                        if sum(1 for v in res.violations if v["class"] == PLAIN_ROUND_CLASS) < 3:
+                            res.violate(PLAIN_ROUND_CLASS, "a plain list of integers is stored in a float type that precedes the integer type and read back rounded", case, canon(ref), canon(got))
+                    else:
+                        res.violate("c03-plain-readback", "plain Python values given to the constructor are not read back unchanged", case, canon(ref), canon(got))
                 else:
-                    res.violate("c03-plain-readback", "plain Python values given to the constructor are not read back unchanged", case, canon(ref), canon(got))
+                    res.bump("plain_readback", "unchanged")
+            try:
+                body = obj.encode()
+            except Exception as exc:  # noqa: BLE001
+                res.violate("c03-encode", "encode of a constructed function raises", case, "bytes", f"{type(exc).__name__}: {str(exc)[:160]}")
+                return
+            system += 1
+            w = bool(cls._is_reply_required) if rng.chance(3, 4) else rng.chance(1, 2)
+            msg = secsgem.hsms.HsmsMessage(secsgem.hsms.HsmsStreamFunctionHeader(system, key[0], key[1], w, 0), body)
+            res.count((cls.__name__, body, mode), nontrivial=cls._data_format is not None,
+                      sample={"op": "roundtrip", "function": cls.__name__, "mode": mode, "body_len": len(body)} if len(res.samples) < 6 and len(body) > 8 else None)
+            res.bump("mode", mode)
+            res.bump("body_len", "0" if len(body) == 0 else ("<=16" if len(body) <= 16 else ("<=256" if len(body) <= 256 else ">256")))
+            try:
+                back = sf.decode(msg)
+            except Exception as exc:  # noqa: BLE001
+                res.violate("c03-decode", "the body produced from a conforming value does not decode", {**case, "body": body.hex()[:400]}, "decoded object", f"{type(exc).__name__}: {str(exc)[:160]}")
+                return
+            if type(back) is not cls:
+                res.violate("c03-decode-class", "decode by stream/function numbers gives an object of another class", case, cls.__name__, type(back).__name__)
+                return
+            want = expected_after_wire(obj.data) if obj.data is not None else None
+            got = back.get()
+            if not same(got, want):
+                res.violate("c03-roundtrip", "decoded value differs from the value encoded", {**case, "body": body.hex()[:400]}, canon(want), canon(got))
+            elif back.encode() != body:
+                res.violate("c03-roundtrip", "re-encoding the decoded object gives other bytes", {**case, "body": body.hex()[:400]}, body.hex()[:200], back.encode().hex()[:200])
+
+        def norm_plain(value, node):
+            """the library's own reading of a plain value: one-element numeric/boolean lists and one-byte binaries read back as the scalar"""
+            if isinstance(node, V.List):
+                if isinstance(value, dict):
+                    return {k: norm_plain(value[k], x) for k, x in node.data.items()}
+                return {k: norm_plain(v, x) for (k, x), v in zip(node.data.items(), value)}
+            if isinstance(node, V.Array):
+                el = vfunctions.generate(node.item_decriptor)
+                return [norm_plain(v, el) for v in value]
+            if isinstance(value, list) and len(value) == 1 and not isinstance(value[0], (list, dict)):
+                return value[0]
+            if isinstance(value, (bytes, bytearray)) and len(value) == 1:
+                return value[0]
+            return value
+
+        MISSING = object()
+
+        def make_value(cls, inst, mode, sizes, what="a structure-conforming value"):
+            """build the value; the variable classes are library code too: a raise while wrapping a conforming value is a finding"""
+            try:
+                return vg.node(inst.data, mode, sizes)
+            except Exception as exc:  # noqa: BLE001
+                res.violate("c03-value-rejected", f"{what} cannot be built from the library's own variable classes",
+                            {"function": cls.__name__, "mode": mode, "sizes": sizes, "nested_depth": vg.force_depth or None}, "a value",
+                            f"{type(exc).__name__}: {str(exc)[:200]}")
+                return MISSING
+
+        reps = 12 if big else 3
+        for cls in usable:
+            inst = cls()
+            if inst.data is None:
+                roundtrip(cls, None, "header-only", None)
+                # a header-only function given a value ignores it and still encodes to nothing
+                continue
+            leaves = leaves_of(inst.data, [])
+            n_alt = max([len(vg.alternatives(x)) for x in leaves] + [1])
+            # typed: until every alternative of every dynamic leaf of this function was used
+            rounds = 0
+            while rounds < n_alt + reps:
+                rounds += 1
+                sizes = ([0], [1], [2], [1, 2, 3], [5, 9] if big else [4])[rounds % 5]
+                roundtrip(cls, make_value(cls, inst, "typed", sizes), "typed", sizes)
+            for mode in ("plain-dict", "plain-positional"):
+                for sizes in ([0], [1], [2], [1, 2, 3, 6]):
+                    for _ in range(reps):
+                        roundtrip(cls, make_value(cls, inst, mode, sizes), mode, sizes)
+            # nested lists (depth 2 and 3) inside every L-capable dynamic item of this function
+            if any(type(x).__type__ is V.Dynamic and V.Array in type(x).__allowedtypes__ for x in leaves):
+                for depth in (2, 3):
+                    vg.force_depth = depth
+                    try:
+                        for sizes in ([1], [2]):
+                            res.bump("nested_list_depth", depth)
+                            roundtrip(cls, make_value(cls, inst, "typed", sizes, f"a list value nested {depth} deep for the L alternative"), f"typed-nested-{depth}", sizes)
+                    finally:
+                        vg.force_depth = 0
+        uncovered = sorted(p for p in all_pairs if p not in vg.covered)
+        if uncovered:
+            res.notes.append(f"alternative types never generated: {uncovered[:10]}")
+        res.bump("alternative_pairs", "covered", len(all_pairs) - len(uncovered))
+        res.bump("alternative_pairs", "total", len(all_pairs))
+        res.exhaustive_parts.append(f"every (data item, alternative type) pair of every catalogued function used at least once: {len(all_pairs) - len(uncovered)}/{len(all_pairs)}")
+
+        # the plain-list pattern, fixed witnesses (one violation entry per run is enough for the listing)
+        for cname, val in (("SecsS01F04", [[1, 2]]), ("SecsS06F11", {"DATAID": 1, "CEID": 2, "RPT": [{"RPTID": 3, "V": [[4, 5]]}]})):
+            cls = getattr(fmod, cname)
+            if cls not in usable:
+                continue
+            res.count(("plain-list-witness", cname), sample={"op": "plain list witness", "function": cname, "value": val})
+            try:
+                got = cls(val).get()
+                res.bump("plain_list_witness", "accepted")
+                want = val
+                if not py_equal(got, want):
+                    res.violate("c03-plain-readback", "plain Python values given to the constructor are not read back unchanged", {"function": cname, "value": val}, canon(want), canon(got))
+            except Exception as exc:  # noqa: BLE001
+                res.bump("plain_list_witness", type(exc).__name__)
+                if not any(v["class"] == PLAIN_LIST_CLASS and v["case"].get("function") == cname for v in res.violations):
+                    res.violate(PLAIN_LIST_CLASS, "a plain Python list given to a dynamic item that also allows L raises " + type(exc).__name__,
+                                {"function": cname, "mode": "plain", "value": val}, "the value read back", f"{type(exc).__name__}: {str(exc)[:120]}")
+
+        wv = [{"ECID": 1, "ECNAME": "n", "ECMIN": 0, "ECMAX": 1, "ECDEF": [18446744073709551614, 1], "UNITS": "u"}]
+        res.count(("round-witness",), sample={"op": "plain int list witness", "function": "SecsS02F30", "value": wv})
+        try:
+            got = fmod.SecsS02F30(wv).get()
+            if not py_equal(got, wv):
+                res.bump("plain_round_witness", "rounded")
+                if not any(v["class"] == PLAIN_ROUND_CLASS and v["case"].get("witness") for v in res.violations):
+                    res.violate(PLAIN_ROUND_CLASS, "a plain list of integers is stored in a float type that precedes the integer type and read back rounded",
+                                {"function": "SecsS02F30", "mode": "plain", "value": wv, "witness": True}, canon(wv), canon(got))
             else:
-                res.bump("plain_readback", "unchanged")
-        try:
-            body = obj.encode()
+                res.bump("plain_round_witness", "unchanged")
         except Exception as exc:  # noqa: BLE001
-            res.violate("c03-encode", "encode of a constructed function raises", case, "bytes", f"{type(exc).__name__}: {str(exc)[:160]}")
-            return
-        system += 1
-        w = bool(cls._is_reply_required) if rng.chance(3, 4) else rng.chance(1, 2)
-        msg = secsgem.hsms.HsmsMessage(secsgem.hsms.HsmsStreamFunctionHeader(system, key[0], key[1], w, 0), body)
-        res.count((cls.__name__, body, mode), nontrivial=cls._data_format is not None,
-                  sample={"op": "roundtrip", "function": cls.__name__, "mode": mode, "body_len": len(body)} if len(res.samples) < 6 and len(body) > 8 else None)
-        res.bump("mode", mode)
-        res.bump("body_len", "0" if len(body) == 0 else ("<=16" if len(body) <= 16 else ("<=256" if len(body) <= 256 else ">256")))
-        try:
-            back = sf.decode(msg)
-        except Exception as exc:  # noqa: BLE001
-            res.violate("c03-decode", "the body produced from a conforming value does not decode", {**case, "body": body.hex()[:400]}, "decoded object", f"{type(exc).__name__}: {str(exc)[:160]}")
-            return
-        if type(back) is not cls:
-            res.violate("c03-decode-class", "decode by stream/function numbers gives an object of another class", case, cls.__name__, type(back).__name__)
-            return
-        want = expected_after_wire(obj.data) if obj.data is not None else None
-        got = back.get()
-        if not same(got, want):
-            res.violate("c03-roundtrip", "decoded value differs from the value encoded", {**case, "body": body.hex()[:400]}, canon(want), canon(got))
-        elif back.encode() != body:
-            res.violate("c03-roundtrip", "re-encoding the decoded object gives other bytes", {**case, "body": body.hex()[:400]}, body.hex()[:200], back.encode().hex()[:200])
-
-    def norm_plain(value, node):
-        """the library's own reading of a plain value: one-element numeric/boolean lists and one-byte binaries read back as the scalar"""
-        if isinstance(node, V.List):
-            if isinstance(value, dict):
-                return {k: norm_plain(value[k], x) for k, x in node.data.items()}
-            return {k: norm_plain(v, x) for (k, x), v in zip(node.data.items(), value)}
-        if isinstance(node, V.Array):
-            el = vfunctions.generate(node.item_decriptor)
-            return [norm_plain(v, el) for v in value]
-        if isinstance(value, list) and len(value) == 1 and not isinstance(value[0], (list, dict)):
-            return value[0]
-        if isinstance(value, (bytes, bytearray)) and len(value) == 1:
-            return value[0]
-        return value
-
-    reps = 12 if big else 3
-    for cls in usable:
-        inst = cls()
-        if inst.data is None:
-            roundtrip(cls, None, "header-only", None)
-            # a header-only function given a value ignores it and still encodes to nothing
-            continue
-        leaves = leaves_of(inst.data, [])
-        n_alt = max([len(vg.alternatives(x)) for x in leaves] + [1])
-        # typed: until every alternative of every dynamic leaf of this function was used
-        rounds = 0
-        while rounds < n_alt + reps:
-            rounds += 1
-            sizes = ([0], [1], [2], [1, 2, 3], [5, 9] if big else [4])[rounds % 5]
-            roundtrip(cls, vg.node(inst.data, "typed", sizes), "typed", sizes)
-        for mode in ("plain-dict", "plain-positional"):
-            for sizes in ([0], [1], [2], [1, 2, 3, 6]):
-                for _ in range(reps):
-                    roundtrip(cls, vg.node(inst.data, mode, sizes), mode, sizes)
-    uncovered = sorted(p for p in all_pairs if p not in vg.covered)
-    if uncovered:
-        res.notes.append(f"alternative types never generated: {uncovered[:10]}")
-    res.bump("alternative_pairs", "covered", len(all_pairs) - len(uncovered))
-    res.bump("alternative_pairs", "total", len(all_pairs))
-    res.exhaustive_parts.append(f"every (data item, alternative type) pair of every catalogued function used at least once: {len(all_pairs) - len(uncovered)}/{len(all_pairs)}")
-
-    # the plain-list pattern, fixed witnesses (one violation entry per run is enough for the listing)
-    for cname, val in (("SecsS01F04", [[1, 2]]), ("SecsS06F11", {"DATAID": 1, "CEID": 2, "RPT": [{"RPTID": 3, "V": [[4, 5]]}]})):
-        cls = getattr(fmod, cname)
-        if cls not in usable:
-            continue
-        res.count(("plain-list-witness", cname), sample={"op": "plain list witness", "function": cname, "value": val})
-        try:
-            got = cls(val).get()
-            res.bump("plain_list_witness", "accepted")
-            want = val
-            if not py_equal(got, want):
-                res.violate("c03-plain-readback", "plain Python values given to the constructor are not read back unchanged", {"function": cname, "value": val}, canon(want), canon(got))
-        except Exception as exc:  # noqa: BLE001
-            res.bump("plain_list_witness", type(exc).__name__)
-            if not any(v["class"] == PLAIN_LIST_CLASS and v["case"].get("function") == cname for v in res.violations):
-                res.violate(PLAIN_LIST_CLASS, "a plain Python list given to a dynamic item that also allows L raises " + type(exc).__name__,
-                            {"function": cname, "mode": "plain", "value": val}, "the value read back", f"{type(exc).__name__}: {str(exc)[:120]}")
-
-    wv = [{"ECID": 1, "ECNAME": "n", "ECMIN": 0, "ECMAX": 1, "ECDEF": [18446744073709551614, 1], "UNITS": "u"}]
-    res.count(("round-witness",), sample={"op": "plain int list witness", "function": "SecsS02F30", "value": wv})
-    try:
-        got = fmod.SecsS02F30(wv).get()
-        if not py_equal(got, wv):
-            res.bump("plain_round_witness", "rounded")
-            if not any(v["class"] == PLAIN_ROUND_CLASS and v["case"].get("witness") for v in res.violations):
-                res.violate(PLAIN_ROUND_CLASS, "a plain list of integers is stored in a float type that precedes the integer type and read back rounded",
-                            {"function": "SecsS02F30", "mode": "plain", "value": wv, "witness": True}, canon(wv), canon(got))
-        else:
-            res.bump("plain_round_witness", "unchanged")
-    except Exception as exc:  # noqa: BLE001
-        res.violate("c03-constructor-rejects", "a structure-conforming value is rejected by the constructor", {"function": "SecsS02F30", "value": wv}, "accepted", repr(exc)[:160])
+            res.violate("c03-constructor-rejects", "a structure-conforming value is rejected by the constructor", {"function": "SecsS02F30", "value": wv}, "accepted", repr(exc)[:160])
 
     # ------------------------------------------------------------ pairing / flags / YAML
-    live = {k: {"to_host": v["flags"][0], "to_equipment": v["flags"][1], "reply": v["flags"][2], "reply_required": v["flags"][3], "multi_block": v["flags"][4]}
-            for k, v in live_rows.items()}
-    for key, what in pairing_problems(live):
-        res.count(("pairing", key), nontrivial=False)
-        klass = S2F49_CLASS if key == (2, 49) else "c03-pairing"
-        res.violate(klass, f"S{key[0]}F{key[1]}: {what}", {"source": "classes", "stream": key[0], "function": key[1], **live[key]})
-    import yaml  # noqa: PLC0415
-    ypath = os.path.join(hlib.REPO, "secsgem", "secs", "functions.yaml")
-    ydata = yaml.safe_load(open(ypath, encoding="utf-8"))
-    yrows = {}
-    for name, row in ydata.items():
-        s, f = int(name[1:3]), int(name[4:6])
-        yrows[(s, f)] = row
-    yflags = {k: {"to_host": r.get("to_host"), "to_equipment": r.get("to_equipment"), "reply": r.get("reply"), "reply_required": r.get("reply_required"),
-                  "multi_block": r.get("multi_block")} for k, r in yrows.items()}
-    for key, what in pairing_problems(yflags):
-        klass = S2F49_CLASS if key == (2, 49) else "c03-pairing"
-        if not (klass == S2F49_CLASS and any(v["class"] == S2F49_CLASS for v in res.violations)):
-            res.violate(klass, f"functions.yaml S{key[0]}F{key[1]}: {what}", {"source": "yaml", "stream": key[0], "function": key[1], **yflags[key]})
-    res.evaluations += len(live) + len(yflags)
-    if set(yrows) != set(live):
-        res.violate("c03-yaml-mismatch", "functions.yaml and the classes do not list the same functions",
-                    {"only_yaml": sorted(set(yrows) - set(live)), "only_classes": sorted(set(live) - set(yrows))})
-    from secsgem.secs.functions.sfdl_tokenizer import SFDLTokenizer  # noqa: PLC0415
+    with Phase(res, "pairing / flags / YAML"):
+        live = {k: {"to_host": v["flags"][0], "to_equipment": v["flags"][1], "reply": v["flags"][2], "reply_required": v["flags"][3], "multi_block": v["flags"][4]}
+                for k, v in live_rows.items()}
+        for key, what in pairing_problems(live):
+            res.count(("pairing", key), nontrivial=False)
+            klass = S2F49_CLASS if key == (2, 49) else "c03-pairing"
+            res.violate(klass, f"S{key[0]}F{key[1]}: {what}", {"source": "classes", "stream": key[0], "function": key[1], **live[key]})
+        import yaml  # noqa: PLC0415
+        ypath = os.path.join(hlib.REPO, "secsgem", "secs", "functions.yaml")
+        ydata = yaml.safe_load(open(ypath, encoding="utf-8"))
+        yrows = {}
+        for name, row in ydata.items():
+            s, f = int(name[1:3]), int(name[4:6])
+            yrows[(s, f)] = row
+        yflags = {k: {"to_host": r.get("to_host"), "to_equipment": r.get("to_equipment"), "reply": r.get("reply"), "reply_required": r.get("reply_required"),
+                      "multi_block": r.get("multi_block")} for k, r in yrows.items()}
+        for key, what in pairing_problems(yflags):
+            klass = S2F49_CLASS if key == (2, 49) else "c03-pairing"
+            if not (klass == S2F49_CLASS and any(v["class"] == S2F49_CLASS for v in res.violations)):
+                res.violate(klass, f"functions.yaml S{key[0]}F{key[1]}: {what}", {"source": "yaml", "stream": key[0], "function": key[1], **yflags[key]})
+        res.evaluations += len(live) + len(yflags)
+        if set(yrows) != set(live):
+            res.violate("c03-yaml-mismatch", "functions.yaml and the classes do not list the same functions",
+                        {"only_yaml": sorted(set(yrows) - set(live)), "only_classes": sorted(set(live) - set(yrows))})
+        from secsgem.secs.functions.sfdl_tokenizer import SFDLTokenizer  # noqa: PLC0415
 
-    def toks(text):
-        return None if text is None else [t.value for t in SFDLTokenizer(text).tokens._tokens]
-    for key in sorted(set(yrows) & set(live)):
-        res.count(("yaml", key), nontrivial=False)
-        if yflags[key] != live[key]:
-            res.violate("c03-yaml-mismatch", f"S{key[0]}F{key[1]}: flags in functions.yaml differ from the class", {"stream": key[0], "function": key[1]}, live[key], yflags[key])
-        try:
-            ty, tc = toks(yrows[key].get("structure")), toks(live_rows[key]["data_format"])
-        except Exception as exc:  # noqa: BLE001
-            res.violate("c03-yaml-mismatch", f"S{key[0]}F{key[1]}: a structure text does not tokenize", {"stream": key[0], "function": key[1]}, None, repr(exc)[:200])
-            continue
-        if ty != tc:
-            res.violate("c03-yaml-mismatch", f"S{key[0]}F{key[1]}: structure in functions.yaml differs from the class", {"stream": key[0], "function": key[1]}, tc, ty)
-        gy = gen_yaml.get(key)
-        if gy is None or gy["flags"] != [yflags[key][x] for x in ("to_host", "to_equipment", "reply", "reply_required", "multi_block")] or gy["data_format"] != yrows[key].get("structure"):
-            res.disagree("Gen.Catalogue.yaml row vs functions.yaml read by PyYAML in the harness", {"key": key}, gy, yflags[key])
-    res.exhaustive_parts.append(f"pairing / reply flags / directions / YAML agreement on all {len(live)} classes and {len(yrows)} YAML rows")
+        def toks(text):
+            return None if text is None else [t.value for t in SFDLTokenizer(text).tokens._tokens]
+        for key in sorted(set(yrows) & set(live)):
+            res.count(("yaml", key), nontrivial=False)
+            if yflags[key] != live[key]:
+                res.violate("c03-yaml-mismatch", f"S{key[0]}F{key[1]}: flags in functions.yaml differ from the class", {"stream": key[0], "function": key[1]}, live[key], yflags[key])
+            try:
+                ty, tc = toks(yrows[key].get("structure")), toks(live_rows[key]["data_format"])
+            except Exception as exc:  # noqa: BLE001
+                res.violate("c03-yaml-mismatch", f"S{key[0]}F{key[1]}: a structure text does not tokenize", {"stream": key[0], "function": key[1]}, None, repr(exc)[:200])
+                continue
+            if ty != tc:
+                res.violate("c03-yaml-mismatch", f"S{key[0]}F{key[1]}: structure in functions.yaml differs from the class", {"stream": key[0], "function": key[1]}, tc, ty)
+            gy = gen_yaml.get(key)
+            if gy is None or gy["flags"] != [yflags[key][x] for x in ("to_host", "to_equipment", "reply", "reply_required", "multi_block")] or gy["data_format"] != yrows[key].get("structure"):
+                res.disagree("Gen.Catalogue.yaml row vs functions.yaml read by PyYAML in the harness", {"key": key}, gy, yflags[key])
+        res.exhaustive_parts.append(f"pairing / reply flags / directions / YAML agreement on all {len(live)} classes and {len(yrows)} YAML rows")
 
     # ------------------------------------------------------------ configurations: containers are independent of each other
-    # container A registers harness-defined classes for catalogued (s, f) pairs through the public `update()`; a fresh default
-    # container B, a container created afterwards, and a default settings object must still resolve ALL pairs to the catalogue
-    # classes and decode with them; the module-level catalogue list must be untouched.
-    import secsgem.secs.functions._all as allmod  # noqa: PLC0415
-    from secsgem.secs.functions.base import SecsStreamFunction  # noqa: PLC0415
-    snapshot = list(allmod.secs_streams_functions)
-    try:
-        cont_a = StreamsFunctions()
-        cont_b = StreamsFunctions()                     # exists before A is changed
-        picks = []
-        cand = [c for c in usable if c._data_format is not None]
-        for _ in range(3):
-            c = rng.choice(cand)
-            if c not in picks:
-                picks.append(c)
-        picks.append(fmod.SecsS01F01)                   # a header-only one as well
-        foreign = {}
-        for c in picks:
-            sub = type("Harness" + c.__name__, (SecsStreamFunction,), {
-                "_stream": c._stream, "_function": c._function, "_data_format": "< L < MDLN > < SOFTREV > >",
-                "_to_host": True, "_to_equipment": True, "_has_reply": False, "_is_reply_required": False, "_is_multi_block": False})
-            foreign[(c._stream, c._function)] = sub
-            cont_a.update(sub)
-        extra = type("HarnessS99F1", (SecsStreamFunction,), {"_stream": 99, "_function": 1, "_data_format": None})
-        cont_a.update(extra)                            # and a function the catalogue does not have
-        cont_c = StreamsFunctions()                     # created after A was changed
-        cont_s = secsgem.hsms.HsmsSettings().streams_functions
-        case = {"registered_in_A": sorted(f"S{k[0]}F{k[1]}" for k in foreign) + ["S99F1"]}
-        res.count(("containers", tuple(sorted(foreign))), sample={"op": "two containers, update() on one", **case})
-        # A really took the registrations (otherwise the oracle would be vacuous)
-        for k, sub in foreign.items():
-            if cont_a.function(*k) is not sub:
-                res.violate("c03-container-update", "update() of a container does not register the class", {**case, "key": k})
-        for cname, cont in (("default container created before the update", cont_b), ("default container created after the update", cont_c),
-                            ("streams_functions of a default HsmsSettings()", cont_s)):
-            for cls in classes:
+    with Phase(res, "configurations: containers are independent of each other"):
+        # container A registers harness-defined classes for catalogued (s, f) pairs through the public `update()`; a fresh default
+        # container B, a container created afterwards, and a default settings object must still resolve ALL pairs to the catalogue
+        # classes and decode with them; the module-level catalogue list must be untouched.
+        import secsgem.secs.functions._all as allmod  # noqa: PLC0415
+        from secsgem.secs.functions.base import SecsStreamFunction  # noqa: PLC0415
+        snapshot = list(allmod.secs_streams_functions)
+        try:
+            cont_a = StreamsFunctions()
+            cont_b = StreamsFunctions()                     # exists before A is changed
+            picks = []
+            cand = [c for c in usable if c._data_format is not None]
+            for _ in range(3):
+                c = rng.choice(cand)
+                if c not in picks:
+                    picks.append(c)
+            picks.append(fmod.SecsS01F01)                   # a header-only one as well
+            foreign = {}
+            for c in picks:
+                sub = type("Harness" + c.__name__, (SecsStreamFunction,), {
+                    "_stream": c._stream, "_function": c._function, "_data_format": "< L < MDLN > < SOFTREV > >",
+                    "_to_host": True, "_to_equipment": True, "_has_reply": False, "_is_reply_required": False, "_is_multi_block": False})
+                foreign[(c._stream, c._function)] = sub
+                cont_a.update(sub)
+            extra = type("HarnessS99F1", (SecsStreamFunction,), {"_stream": 99, "_function": 1, "_data_format": None})
+            cont_a.update(extra)                            # and a function the catalogue does not have
+            cont_c = StreamsFunctions()                     # created after A was changed
+            cont_s = secsgem.hsms.HsmsSettings().streams_functions
+            case = {"registered_in_A": sorted(f"S{k[0]}F{k[1]}" for k in foreign) + ["S99F1"]}
+            res.count(("containers", tuple(sorted(foreign))), sample={"op": "two containers, update() on one", **case})
+            # A really took the registrations (otherwise the oracle would be vacuous)
+            for k, sub in foreign.items():
+                if safe_lookup(cont_a, *k) is not sub:
+                    res.violate("c03-container-update", "update() of a container does not register the class", {**case, "key": k})
+            for cname, cont in (("default container created before the update", cont_b), ("default container created after the update", cont_c),
+                                ("streams_functions of a default HsmsSettings()", cont_s)):
+                for cls in classes:
+                    k = (cls._stream, cls._function)
+                    res.evaluations += 1
+                    try:
+                        got = cont.function(*k)
+                    except Exception as exc:  # noqa: BLE001
+                        got = exc
+                    if got is not cls:
+                        res.violate("c03-container-shared", f"after update() on ANOTHER container, the {cname} no longer resolves S{k[0]}F{k[1]} to the catalogue class",
+                                    {**case, "container": cname, "stream": k[0], "function": k[1]}, cls.__name__, getattr(got, "__name__", repr(got))[:120])
+                try:
+                    leaked = cont.function(99, 1)
+                except Exception as exc:  # noqa: BLE001
+                    leaked = exc
+                if leaked is not None:
+                    res.violate("c03-container-shared", f"a function registered in another container is found in the {cname}", {**case, "container": cname, "stream": 99, "function": 1},
+                                None, getattr(leaked, "__name__", repr(leaked))[:120])
+                # decode a body built with the catalogue class through that container
+                for c in picks:
+                    if c not in usable:
+                        continue
+                    try:
+                        val = vg.node(c().data, "typed", [1, 2]) if c._data_format is not None else None
+                        obj = c(val)
+                        msg = secsgem.hsms.HsmsMessage(secsgem.hsms.HsmsStreamFunctionHeader(77, c._stream, c._function, False, 0), obj.encode())
+                        back = cont.decode(msg)
+                        ok = type(back) is c and same(back.get(), expected_after_wire(obj.data) if obj.data is not None else None)
+                        detail = type(back).__name__
+                    except Exception as exc:  # noqa: BLE001
+                        ok, detail = False, f"{type(exc).__name__}: {str(exc)[:120]}"
+                    res.evaluations += 1
+                    if not ok:
+                        res.violate("c03-container-shared", f"after update() on ANOTHER container, the {cname} decodes S{c._stream}F{c._function} with a foreign class",
+                                    {**case, "container": cname, "stream": c._stream, "function": c._function}, c.__name__, detail)
+            now = allmod.secs_streams_functions
+            if len(now) != len(snapshot) or any(x is not y for x, y in zip(now, snapshot)):
+                res.violate("c03-container-shared", "update() on a container changed the module-level catalogue list secs_streams_functions",
+                            case, [c.__name__ for c in snapshot][:3] + ["…", len(snapshot)], [getattr(c, "__name__", "?") for c in now][-3:] + [len(now)])
+            res.exhaustive_parts.append("container isolation: after update() on one container, all 134 (s, f) in three other default containers + the module-level list")
+
+            # the SAME container, used before and after `update()`: what was resolved/decoded earlier must not stick
+            allmod.secs_streams_functions[:] = snapshot      # start from the catalogue even if the containers above turned out to share it
+            cont_d = StreamsFunctions()
+            bodies = {}
+            for cls in classes:                                  # every pair resolved once before anything is registered
+                safe_lookup(cont_d, cls._stream, cls._function)
+            for c in picks:
+                if c in usable:
+                    obj = c(vg.node(c().data, "typed", [1]) if c._data_format is not None else None)
+                    bodies[c] = obj.encode()
+                    try:
+                        cont_d.decode(secsgem.hsms.HsmsMessage(secsgem.hsms.HsmsStreamFunctionHeader(78, c._stream, c._function, False, 0), bodies[c]))
+                    except Exception:  # noqa: BLE001 - judged by the round-trip oracle above, here it only warms the container
+                        pass
+            safe_lookup(cont_d, 99, 1)
+            for sub in list(foreign.values()) + [extra]:
+                cont_d.update(sub)
+            case_d = {"container": "one container: lookup/decode, then update(), then lookup/decode again", **case}
+            res.count(("same-container", tuple(sorted(foreign))), sample={"op": "lookup, update(), lookup on one container", **case})
+            new_body = foreign[next(iter(foreign))](["mdln", "rev"]).encode()
+            for k, sub in list(foreign.items()) + [((99, 1), extra)]:
+                res.evaluations += 1
+                try:
+                    got = cont_d.function(*k)
+                except Exception as exc:  # noqa: BLE001
+                    got = exc
+                if got is not sub:
+                    res.violate("c03-container-stale", f"after update() the container still resolves S{k[0]}F{k[1]} to what it resolved before",
+                                {**case_d, "stream": k[0], "function": k[1]}, sub.__name__, getattr(got, "__name__", repr(got))[:120])
+                if k != (99, 1):
+                    try:
+                        back = cont_d.decode(secsgem.hsms.HsmsMessage(secsgem.hsms.HsmsStreamFunctionHeader(79, k[0], k[1], False, 0), new_body))
+                        ok, detail = type(back) is sub and back.get() == {"MDLN": "mdln", "SOFTREV": "rev"}, type(back).__name__
+                    except Exception as exc:  # noqa: BLE001
+                        ok, detail = False, f"{type(exc).__name__}: {str(exc)[:100]}"
+                    if not ok:
+                        res.violate("c03-container-stale", f"after update() a body of the registered S{k[0]}F{k[1]} is decoded with the class resolved before",
+                                    {**case_d, "stream": k[0], "function": k[1]}, sub.__name__, detail)
+            for cls in classes:                                  # the rest is still the catalogue
                 k = (cls._stream, cls._function)
                 res.evaluations += 1
                 try:
-                    got = cont.function(*k)
+                    still = cont_d.function(*k)
                 except Exception as exc:  # noqa: BLE001
-                    got = exc
-                if got is not cls:
-                    res.violate("c03-container-shared", f"after update() on ANOTHER container, the {cname} no longer resolves S{k[0]}F{k[1]} to the catalogue class",
-                                {**case, "container": cname, "stream": k[0], "function": k[1]}, cls.__name__, getattr(got, "__name__", repr(got))[:120])
-            try:
-                leaked = cont.function(99, 1)
-            except Exception as exc:  # noqa: BLE001
-                leaked = exc
-            if leaked is not None:
-                res.violate("c03-container-shared", f"a function registered in another container is found in the {cname}", {**case, "container": cname, "stream": 99, "function": 1},
-                            None, getattr(leaked, "__name__", repr(leaked))[:120])
-            # decode a body built with the catalogue class through that container
-            for c in picks:
-                if c not in usable:
-                    continue
-                try:
-                    val = vg.node(c().data, "typed", [1, 2]) if c._data_format is not None else None
-                    obj = c(val)
-                    msg = secsgem.hsms.HsmsMessage(secsgem.hsms.HsmsStreamFunctionHeader(77, c._stream, c._function, False, 0), obj.encode())
-                    back = cont.decode(msg)
-                    ok = type(back) is c and same(back.get(), expected_after_wire(obj.data) if obj.data is not None else None)
-                    detail = type(back).__name__
-                except Exception as exc:  # noqa: BLE001
-                    ok, detail = False, f"{type(exc).__name__}: {str(exc)[:120]}"
+                    still = exc
+                if k not in foreign and still is not cls:
+                    res.violate("c03-container-stale", f"update() of other functions changed what S{k[0]}F{k[1]} resolves to", {**case_d, "stream": k[0], "function": k[1]})
+            for c in picks:                                      # registering the catalogue class again brings it back
+                cont_d.update(c)
                 res.evaluations += 1
-                if not ok:
-                    res.violate("c03-container-shared", f"after update() on ANOTHER container, the {cname} decodes S{c._stream}F{c._function} with a foreign class",
-                                {**case, "container": cname, "stream": c._stream, "function": c._function}, c.__name__, detail)
-        now = allmod.secs_streams_functions
-        if len(now) != len(snapshot) or any(x is not y for x, y in zip(now, snapshot)):
-            res.violate("c03-container-shared", "update() on a container changed the module-level catalogue list secs_streams_functions",
-                        case, [c.__name__ for c in snapshot][:3] + ["…", len(snapshot)], [getattr(c, "__name__", "?") for c in now][-3:] + [len(now)])
-        res.exhaustive_parts.append("container isolation: after update() on one container, all 134 (s, f) in three other default containers + the module-level list")
-
-        # the SAME container, used before and after `update()`: what was resolved/decoded earlier must not stick
-        allmod.secs_streams_functions[:] = snapshot      # start from the catalogue even if the containers above turned out to share it
-        cont_d = StreamsFunctions()
-        bodies = {}
-        for cls in classes:                                  # every pair resolved once before anything is registered
-            cont_d.function(cls._stream, cls._function)
-        for c in picks:
-            if c in usable:
-                obj = c(vg.node(c().data, "typed", [1]) if c._data_format is not None else None)
-                bodies[c] = obj.encode()
                 try:
-                    cont_d.decode(secsgem.hsms.HsmsMessage(secsgem.hsms.HsmsStreamFunctionHeader(78, c._stream, c._function, False, 0), bodies[c]))
-                except Exception:  # noqa: BLE001 - judged by the round-trip oracle above, here it only warms the container
-                    pass
-        cont_d.function(99, 1)
-        for sub in list(foreign.values()) + [extra]:
-            cont_d.update(sub)
-        case_d = {"container": "one container: lookup/decode, then update(), then lookup/decode again", **case}
-        res.count(("same-container", tuple(sorted(foreign))), sample={"op": "lookup, update(), lookup on one container", **case})
-        new_body = foreign[next(iter(foreign))](["mdln", "rev"]).encode()
-        for k, sub in list(foreign.items()) + [((99, 1), extra)]:
-            res.evaluations += 1
-            try:
-                got = cont_d.function(*k)
-            except Exception as exc:  # noqa: BLE001
-                got = exc
-            if got is not sub:
-                res.violate("c03-container-stale", f"after update() the container still resolves S{k[0]}F{k[1]} to what it resolved before",
-                            {**case_d, "stream": k[0], "function": k[1]}, sub.__name__, getattr(got, "__name__", repr(got))[:120])
-            if k != (99, 1):
-                try:
-                    back = cont_d.decode(secsgem.hsms.HsmsMessage(secsgem.hsms.HsmsStreamFunctionHeader(79, k[0], k[1], False, 0), new_body))
-                    ok, detail = type(back) is sub and back.get() == {"MDLN": "mdln", "SOFTREV": "rev"}, type(back).__name__
+                    got = cont_d.function(c._stream, c._function)
+                    back = cont_d.decode(secsgem.hsms.HsmsMessage(secsgem.hsms.HsmsStreamFunctionHeader(80, c._stream, c._function, False, 0), bodies[c])) if c in bodies else None
+                    ok = got is c and (back is None or type(back) is c)
                 except Exception as exc:  # noqa: BLE001
-                    ok, detail = False, f"{type(exc).__name__}: {str(exc)[:100]}"
+                    ok, got = False, exc
                 if not ok:
-                    res.violate("c03-container-stale", f"after update() a body of the registered S{k[0]}F{k[1]} is decoded with the class resolved before",
-                                {**case_d, "stream": k[0], "function": k[1]}, sub.__name__, detail)
-        for cls in classes:                                  # the rest is still the catalogue
-            k = (cls._stream, cls._function)
-            res.evaluations += 1
-            try:
-                still = cont_d.function(*k)
-            except Exception as exc:  # noqa: BLE001
-                still = exc
-            if k not in foreign and still is not cls:
-                res.violate("c03-container-stale", f"update() of other functions changed what S{k[0]}F{k[1]} resolves to", {**case_d, "stream": k[0], "function": k[1]})
-        for c in picks:                                      # registering the catalogue class again brings it back
-            cont_d.update(c)
-            res.evaluations += 1
-            try:
-                got = cont_d.function(c._stream, c._function)
-                back = cont_d.decode(secsgem.hsms.HsmsMessage(secsgem.hsms.HsmsStreamFunctionHeader(80, c._stream, c._function, False, 0), bodies[c])) if c in bodies else None
-                ok = got is c and (back is None or type(back) is c)
-            except Exception as exc:  # noqa: BLE001
-                ok, got = False, exc
-            if not ok:
-                res.violate("c03-container-stale", f"re-registering the catalogue class of S{c._stream}F{c._function} does not bring it back",
-                            {**case_d, "stream": c._stream, "function": c._function}, c.__name__, getattr(got, "__name__", repr(got))[:120])
-        res.exhaustive_parts.append("one container before/after update(): all 134 (s, f) resolved first, replacements for 4 of them + S99F1, lookup and decode again, re-registration")
-    finally:
-        allmod.secs_streams_functions[:] = snapshot   # whatever happened, leave the catalogue as it was for what follows
+                    res.violate("c03-container-stale", f"re-registering the catalogue class of S{c._stream}F{c._function} does not bring it back",
+                                {**case_d, "stream": c._stream, "function": c._function}, c.__name__, getattr(got, "__name__", repr(got))[:120])
+            res.exhaustive_parts.append("one container before/after update(): all 134 (s, f) resolved first, replacements for 4 of them + S99F1, lookup and decode again, re-registration")
+        finally:
+            allmod.secs_streams_functions[:] = snapshot   # whatever happened, leave the catalogue as it was for what follows
 
     # ------------------------------------------------------------ order of use must not matter (fresh interpreter per order)
-    import subprocess  # noqa: PLC0415
-    import tempfile  # noqa: PLC0415
-    values = {}
-    restrict = {}
-    for cls in usable:
-        if cls._data_format is None:
-            continue
-        inst = cls()
-        values[cls.__name__] = [[v, enc_json(boundary_value(inst.data, v, cls.__name__))] for v in (0, 1, 2)]
-        lims = [x for x in (limited_text_count(leaf) for leaf in leaves_of(inst.data, [])) if x is not None]
-        restrict[cls.__name__] = min(lims) if lims else 10 ** 9
-    names = list(values)
-    orders = {"catalogue order": names, "reverse catalogue order": names[::-1],
-              "tightest length limit first": sorted(names, key=lambda n: restrict[n]),
-              "loosest length limit first": sorted(names, key=lambda n: -restrict[n]),
-              "seeded shuffle 1": rng.shuffle(names), "seeded shuffle 2": rng.shuffle(names)}
-    scratch = os.environ.get("VERIF_SCRATCH") or tempfile.mkdtemp(prefix="verif-c03-")
-    procs = []
-    for i, (oname, order) in enumerate(orders.items()):
-        jf, of = os.path.join(scratch, f"order{i}.job.json"), os.path.join(scratch, f"order{i}.out.json")
-        json.dump({"order": order, "values": values}, open(jf, "w"))
-        procs.append((oname, of, subprocess.Popen([sys.executable, os.path.abspath(__file__), "--order-worker", jf, of],
-                                                  stdout=subprocess.PIPE, stderr=subprocess.STDOUT)))
-    outcomes = {}
-    for oname, of, pr in procs:
-        try:
-            out, _ = pr.communicate(timeout=300)
-        except subprocess.TimeoutExpired:
-            pr.kill()
-            out = b"timeout"
-        if pr.returncode != 0 or not os.path.exists(of):
-            raise RuntimeError(f"order worker '{oname}' failed: {out[-400:]!r}")
-        for name, variant, st in json.load(open(of)):
-            outcomes.setdefault((name, variant), {})[oname] = st
-    vdesc = {0: "length-limited items at their limit", 1: "one below the limit", 2: "one above the limit (not conforming)"}
-    for (name, variant), by_order in sorted(outcomes.items()):
-        res.count(("order", name, variant), nontrivial=True, sample={"op": "order experiment", "function": name, "variant": vdesc[variant]} if len(res.samples) < 9 and variant == 0 else None)
-        res.evaluations += len(by_order) - 1
-        value = dec_json(dict((v, e) for v, e in values[name])[variant])
-        distinct = sorted(set(by_order.values()))
-        res.bump("order_experiment", vdesc[variant] + " -> " + ("same in all orders" if len(distinct) == 1 else "ORDER DEPENDENT"))
-        if len(distinct) > 1:
-            res.violate("c03-order-dependent", "the same value of the same function is treated differently depending on which functions were used before",
-                        {"function": name, "value": canon(value), "variant": vdesc[variant], "outcome_by_order": by_order}, distinct[0], distinct[1])
-        elif variant != 2 and not distinct[0].startswith("read back unchanged; wire ok"):
-            res.violate("c03-plain-readback" if distinct[0].startswith("read back") else "c03-constructor-rejects",
-                        "a structure-conforming value with length-limited items at (or one below) their limit is not read back unchanged / does not round-trip",
-                        {"function": name, "value": canon(value), "variant": vdesc[variant]}, "read back unchanged; wire ok", distinct[0])
-    res.exhaustive_parts.append(f"order experiment: {len(values)} functions x 3 boundary variants in {len(orders)} global orders, each order in a fresh interpreter")
+    with Phase(res, "order of use must not matter (fresh interpreter per order)"):
+        import subprocess  # noqa: PLC0415
+        import tempfile  # noqa: PLC0415
+        values = {}
+        restrict = {}
+        for cls in usable:
+            if cls._data_format is None:
+                continue
+            inst = cls()
+            values[cls.__name__] = [[v, enc_json(boundary_value(inst.data, v, cls.__name__))] for v in (0, 1, 2)]
+            lims = [x for x in (limited_text_count(leaf) for leaf in leaves_of(inst.data, [])) if x is not None]
+            restrict[cls.__name__] = min(lims) if lims else 10 ** 9
+        names = list(values)
+        orders = {"catalogue order": names, "reverse catalogue order": names[::-1],
+                  "tightest length limit first": sorted(names, key=lambda n: restrict[n]),
+                  "loosest length limit first": sorted(names, key=lambda n: -restrict[n]),
+                  "seeded shuffle 1": rng.shuffle(names), "seeded shuffle 2": rng.shuffle(names)}
+        scratch = os.environ.get("VERIF_SCRATCH") or tempfile.mkdtemp(prefix="verif-c03-")
+        procs = []
+        for i, (oname, order) in enumerate(orders.items()):
+            jf, of = os.path.join(scratch, f"order{i}.job.json"), os.path.join(scratch, f"order{i}.out.json")
+            json.dump({"order": order, "values": values}, open(jf, "w"))
+            procs.append((oname, of, subprocess.Popen([sys.executable, os.path.abspath(__file__), "--order-worker", jf, of],
+                                                      stdout=subprocess.PIPE, stderr=subprocess.STDOUT)))
+        outcomes = {}
+        for oname, of, pr in procs:
+            try:
+                out, _ = pr.communicate(timeout=300)
+            except subprocess.TimeoutExpired:
+                pr.kill()
+                out = b"timeout"
+            if pr.returncode != 0 or not os.path.exists(of):
+                raise RuntimeError(f"order worker '{oname}' failed: {out[-400:]!r}")
+            for name, variant, st in json.load(open(of)):
+                outcomes.setdefault((name, variant), {})[oname] = st
+        vdesc = {0: "length-limited items at their limit", 1: "one below the limit", 2: "one above the limit (not conforming)"}
+        for (name, variant), by_order in sorted(outcomes.items()):
+            res.count(("order", name, variant), nontrivial=True, sample={"op": "order experiment", "function": name, "variant": vdesc[variant]} if len(res.samples) < 9 and variant == 0 else None)
+            res.evaluations += len(by_order) - 1
+            value = dec_json(dict((v, e) for v, e in values[name])[variant])
+            distinct = sorted(set(by_order.values()))
+            res.bump("order_experiment", vdesc[variant] + " -> " + ("same in all orders" if len(distinct) == 1 else "ORDER DEPENDENT"))
+            if len(distinct) > 1:
+                res.violate("c03-order-dependent", "the same value of the same function is treated differently depending on which functions were used before",
+                            {"function": name, "value": canon(value), "variant": vdesc[variant], "outcome_by_order": by_order}, distinct[0], distinct[1])
+            elif variant != 2 and not distinct[0].startswith("read back unchanged; wire ok"):
+                res.violate("c03-plain-readback" if distinct[0].startswith("read back") else "c03-constructor-rejects",
+                            "a structure-conforming value with length-limited items at (or one below) their limit is not read back unchanged / does not round-trip",
+                            {"function": name, "value": canon(value), "variant": vdesc[variant]}, "read back unchanged; wire ok", distinct[0])
+        res.exhaustive_parts.append(f"order experiment: {len(values)} functions x 3 boundary variants in {len(orders)} global orders, each order in a fresh interpreter")
 
     if a.replay:
         # verdict of a replay: only what the recorded run reported (its finding classes; its broken correspondence)
@@ -897,8 +1008,9 @@ def main():
         if any(b.get("stage") == "C" for b in rp.get("breaks", [])) and res.disagreements and not res.violations:
             d = res.disagreements[0]
             res.violate("correspondence", "model and implementation still disagree: " + d["what"], d["case"], d["model"], d["impl"])
-    import c03_fn  # noqa: E402
-    c03_fn.run(res, rng.fork("fn"), drv, a.tier)
+    with Phase(res, "codec value oracle (c03_fn)"):
+        import c03_fn  # noqa: E402
+        c03_fn.run(res, rng.fork("fn"), drv, a.tier)
     # shortest failing case first (it becomes the "first failing input" of the verdict and of the replay file)
     res.violations.sort(key=lambda v: len(json.dumps(v["case"], default=repr)))
     res.disagreements.sort(key=lambda v: len(json.dumps(v["case"], default=repr)))
